@@ -171,7 +171,9 @@ From LLB Require Import Engine.ImplInc1 Engine.ImplInc9 Engine.ImplInc10.
    HInv does not mention the environment: the world may change arbitrarily between builds.  impl_hinv_init: a new engine satisfies it.
 
    PARTIAL - the exact gap to the full statement `impl_build_values_clean`: every earlier build returned normally (no cancelled
-   rule is left behind: part of HInv).  The rule table may be edited between builds (HInv does not mention `rules`; each build
+   rule is left behind: part of HInv).  Under the premises of these theorems a build never reports a cycle and never cancels a task
+   (impl_build_never_cycles below), so within histories all of whose rule tables are ranked the gap is empty; it concerns histories
+   in which an earlier build ran with an UNRANKED (cyclic) table and failed.  The rule table may be edited between builds (HInv does not mention `rules`; each build
    needs table_ok for its own table: impl_history_rule_edits_values_clean_partial; an edited rule has a new signature).
    The builds are builds of one engine instance, with or without a database attached (HInv does not say which); a restart from the
    database is the subject of impl_restart_from_database / impl_history_restarts_values_clean_partial below (stage 3b-3).
@@ -397,3 +399,43 @@ Theorem impl_run_gen_db_in_step : forall rules F rank R ord syncp,
   DBI R sf /\ is_usedb sf = true.
 Proof. exact run_gen_DBI. Qed.
 Print Assumptions impl_run_gen_db_in_step.
+
+(* ---------- no stall, no cycle report, no cancelled task under the rank hypothesis ---------- *)
+From LLB Require Import Engine.ImplInc16.
+(* The analogue of Properties_C01.c01_no_cycle_when_ranked for the small-step engine: from a state at rest, with a ranked rule table
+   (and wf_disc, table_ok), no iteration of the loop ends "stalled" - every edge of findCycle's wait graph goes down in rank
+   (ImplInc16.edge_rank), so with all queues idle no task and no scanning rule is left - hence BuildEngine::build never reports a
+   cycle and never calls cancelRemainingTasks.  Consequence for the value theorems: in a history ALL of whose rule tables are ranked
+   the premise "no cancelled build before" (part of HInv) holds by itself; a cycle-failed build needs an unranked table, for which
+   the clean value Spec.cv is not defined by these theorems.  (impl_stall_no_dead_end_refuted is such a table.) *)
+Theorem impl_never_stalls : forall rules F rank R ord syncp,
+  wf_rank rules rank -> wf_disc rules -> table_ok rules R -> (forall k, In RReq (ord k)) ->
+  forall env s0 root s fuel comps s' st, ImplInc1.HInv F R s0 -> in_build rules env F ord syncp s0 root s ->
+  loop_iteration rules env F ord syncp fuel s comps = (s', st) -> is_fault s' = None -> st <> StStall.
+Proof. exact never_stalls. Qed.
+Print Assumptions impl_never_stalls.
+Theorem impl_build_never_cycles : forall rules F rank R ord syncp,
+  wf_rank rules rank -> wf_disc rules -> table_ok rules R -> (forall k, In RReq (ord k)) ->
+  forall env fuel pfuel s0 root sched sC g c m, ImplInc1.HInv F R s0 ->
+  ibuild rules env F ord syncp fuel pfuel s0 root sched = (RCycle sC g c, m) -> is_fault sC = None -> False.
+Proof. exact build_never_cycles. Qed.
+Print Assumptions impl_build_never_cycles.
+
+(* builds with their own rule tables, restarts from the database and rule edits mixed, from a new engine over an empty database:
+   every build returns the clean value of its requested key for its table and its environment (ImplInc17) *)
+From LLB Require Import Engine.ImplInc17.
+Theorem impl_history_edits_restarts_values_clean_partial : forall F R ord syncp, (forall k, In RReq (ord k)) ->
+  forall cfuel ops s sf vs, (forall rb, In rb (gop_builds ops) -> rb_ok R cfuel rb) -> DInv F R s ->
+  run_gops F ord syncp s ops = Some (sf, vs) ->
+  vs = map (fun rb => cv (rb_rules rb) (bs_env (rb_build rb)) F cfuel (bs_root (rb_build rb))) (gop_builds ops) /\ DInv F R sf.
+Proof. exact gops_values_clean. Qed.
+Print Assumptions impl_history_edits_restarts_values_clean_partial.
+
+(* After a build that REPORTED A CYCLE (any rule table, ranked or not: executeTasks returned false after cancelRemainingTasks) the
+   engine is quiescent again, so the next build is again covered by in_build and all first-stage theorems (Engine/ImplCycle.v).
+   The VALUES of builds after a cycle-failed build are not covered (the cancelled rules carry the flag "cancelled", excluded by HInv). *)
+From LLB Require Import Engine.ImplCycle.
+Theorem impl_build_cycle_quiescent : forall rules env F ord syncp fuel pfuel s0 root sched sC g c m,
+  quiescent s0 -> ibuild rules env F ord syncp fuel pfuel s0 root sched = (RCycle sC g c, m) -> is_fault sC = None -> quiescent sC.
+Proof. exact build_cycle_quiescent. Qed.
+Print Assumptions impl_build_cycle_quiescent.
